@@ -6,12 +6,44 @@
    so they accept every valid value).  The statement "every valid document is accepted" for whole
    schemas (C02_full below) is decided on the implementation by the correspondence run together with
    the reference semantics Spec/Valid.v; its general proof over all schemas is not done (partial). *)
-From GJS Require Import Base Regex Schema GoType Gen Exec Valid ExecP GenP CoreP.
+From GJS Require Import Base Regex Schema GoType Gen Exec Valid ExecP GenP CoreP MethodP.
 
 Definition C02_full : Prop :=
   forall fmt_ok idf cf defs root name p t j,
     gen_file idf cf defs root name = Done p -> p_root p = Some t ->
     valid fmt_ok defs 100 root j = true -> exists v, dec fmt_ok (p_defs p) exec_fuel t j = Ok v.
+
+(* a declared struct whose method only checks (no default assignment, no composite, no additional-properties field), any JSON object:
+   accepted iff every required key is present, every present key decodes into its field, every check passes on the decoded
+   fields - both directions, every field list, validator list and document; and the accepted value is exactly the decoded
+   fields (nothing lost, nothing added).  With C05/C06/C07 (each check = its specification) this is "valid iff accepted" for
+   one level; the levels compose through [field_decodes]. *)
+Theorem C02_struct_exact : forall fmt_ok env f c n fs vs kv, forallb check_only vs = true -> find f_addl fs = None ->
+  is_ok (dec fmt_ok env (S f) (TStruct (c :: n) fs (Some vs)) (JObj kv)) =
+    forallb (fun v => is_ok (before_step (dec fmt_ok env f) (raw_of vs kv) (JObj kv) v)) vs &&
+    match plain_fields (dec fmt_ok env f) zero fs (JObj kv) with
+    | Ok st => forallb (fun v => is_ok (after_step (default_val env dv_fuel) (raw_of vs kv) st v)) vs
+    | _ => false
+    end.
+Proof. exact struct_exact. Qed.
+Print Assumptions C02_struct_exact.
+Theorem C02_struct_value : forall fmt_ok env f c n fs vs kv st, forallb check_only vs = true -> find f_addl fs = None ->
+  dec fmt_ok env (S f) (TStruct (c :: n) fs (Some vs)) (JObj kv) = Ok st ->
+  plain_fields (dec fmt_ok env f) zero fs (JObj kv) = Ok st.
+Proof. exact struct_exact_value. Qed.
+Print Assumptions C02_struct_value.
+Theorem C02_fields_decode : forall decf zf fs kv,
+  is_ok (plain_fields decf zf fs (JObj kv)) = true <-> forallb (field_decodes decf kv) fs = true.
+Proof. exact plain_fields_is_ok. Qed.
+Print Assumptions C02_fields_decode.
+
+(* the generator produces exactly such methods: an object schema without additionalProperties none of whose properties has a default *)
+Theorem C02_generated_checks_only : forall idf cf defs f self sub s scope t b,
+  plain_object s -> s_addl s = None -> (forall k p, In (k, p) (s_props s) -> c_default (s_con p) = None) -> s_props s <> [] ->
+  gen idf cf defs (S f) MType self sub s scope = Done (t, b) ->
+  exists fs vs, t = TStruct [] fs (Some vs) /\ forallb check_only vs = true /\ find f_addl fs = None.
+Proof. exact object_method_checks_only. Qed.
+Print Assumptions C02_generated_checks_only.
 
 Theorem C02_string : forall fmt_ok env f s, dec fmt_ok env (S f) TString (JStr s) = Ok (GS s).
 Proof. exact dec_string_lossless. Qed.
